@@ -3,13 +3,19 @@ C06, part `Cli` — sharding at the level of the command line. A shard tree over
 (bytes); every inner node is one grcov run (`Cli.run`, GrcovModel/Cli.lean, tied to the real binary
 by the shard trees of harness/c06) on the files of its two children, writing the lcov report the
 parent reads; against the single run on all input files.
+The run is `Cli.runJ` (`rewrite_paths` with the Java/Kotlin lookup; second review, item 26).
 Guards (each is needed, see the witnesses): `--branch` on (`C06_reimport_without_branch_flag_false`);
-no source dir, so `add_results` files paths as they are; every input lists a file once and its
-records are within the writer's bounds; and – the rewrite idempotence guard, which subsumes the
-`keysRewriteInjectively` hypothesis of DESIGN 6.C06 – every path occurring in an input is reported
-as itself whatever its data: the paths are already in reported form and no filter drops a file
+every input lists a file once and its records are within the writer's bounds; and – the rewrite
+idempotence guard, which subsumes the `keysRewriteInjectively` hypothesis of DESIGN 6.C06 – every
+path occurring in an input is a FIXED PATH: filed by `add_results` under its key (with a source
+dir: the canonical path of `source_dir/path` when that exists) it is reported as itself whatever
+its data: the paths are already in reported form and no filter drops a file
 (a `--filter` decides per shard on partial data; two spellings of one path are merged by the upper
-stage but listed twice by the single run: `C06_cli_respelled_paths_witness`).
+stage but listed twice by the single run: `C06_cli_respelled_paths_witness`); with a source dir
+no fixed path is a `.java`/`.kt` file (whose partial-path lookup depends on what else is in the
+run). The path options are applied AT EVERY STAGE, shards included: `C06_cli_sharding_partial`
+holds for any source dir / prefix dir under that guard, and `C06_cli_sharding_source_partial`
+instantiates it for `-s S [-p S]` with the files on disk (second review, item 27).
 The tree is binary here (a run on n files is the left fold of runs' `add_results`, `Rep.mergeReports`).
 -/
 import GrcovModel.Lemmas.LcovShards
@@ -36,12 +42,18 @@ theorem get?_sortByKey {α : Type} (m : List (Nat × α)) (hn : NodupKeys m) (k 
     get? (sortByKey m) k = get? m k :=
   (get?_perm_nodup m (sortByKey m) (sortByKey_perm m).symm hn k).symm
 
+theorem get?_sortFns (m : List (Name × Fn)) (hn : NodupKeys m) (k : Name) :
+    get? (sortFns m) k = get? m k :=
+  (get?_perm_nodup m (sortFns m) (sortFns_perm m).symm hn k).symm
+
 theorem sortCov_wf (c : Cov) (h : c.WF) : (sortCov c).WF :=
-  ⟨nodupKeys_sortByKey _ h.linesNodup, nodupKeys_sortByKey _ h.branchesNodup, h.functionsNodup,
+  ⟨nodupKeys_sortByKey _ h.linesNodup, nodupKeys_sortByKey _ h.branchesNodup,
+   nodupKeys_sortFns _ h.functionsNodup,
    fun kv hkv => h.countsFit kv ((sortByKey_perm c.lines).mem_iff.1 hkv)⟩
 
 theorem sortCov_obs (c : Cov) (h : c.WF) : ObsEq (sortCov c) c :=
-  ⟨fun l => get?_sortByKey _ h.linesNodup l, fun l => get?_sortByKey _ h.branchesNodup l, fun _ => rfl⟩
+  ⟨fun l => get?_sortByKey _ h.linesNodup l, fun l => get?_sortByKey _ h.branchesNodup l,
+   fun n => by show execOf (get? (sortFns c.functions) n) = _; rw [get?_sortFns _ h.functionsNodup]⟩
 
 theorem sortCov_good (c : Cov) (h : Good c) : Good (sortCov c) :=
   ⟨sortCov_wf c h.1, fun l v hv => h.2 l v (by rw [← get?_sortByKey _ h.1.branchesNodup l]; exact hv)⟩
@@ -49,7 +61,7 @@ theorem sortCov_good (c : Cov) (h : Good c) : Good (sortCov c) :=
 theorem sortCov_bounded (c : Cov) (hw : c.WF) (h : Bounded c) : Bounded (sortCov c) :=
   ⟨fun l n hg => h.lines l n (by rw [← get?_sortByKey _ hw.linesNodup l]; exact hg),
    fun l v hg => h.branches l v (by rw [← get?_sortByKey _ hw.branchesNodup l]; exact hg),
-   h.fns⟩
+   fun n f hg => h.fns n f (by rw [← get?_sortFns _ hw.functionsNodup n]; exact hg)⟩
 
 theorem norm_of_good (c : Cov) (h : Good c) : norm c = sortCov c := by
   unfold norm dropEmpty
@@ -86,9 +98,13 @@ theorem covAt_sortR (r : Report) (h : RepOK r) (k : Lcov.Bytes) : ObsEq (covAt (
 
 /-! ### one run on files that hold reports -/
 
-/-- a path that `rewrite_paths` reports as itself, whatever the data filed under it -/
+/-- a path that a run reports as itself, whatever the data filed under it: `add_results` files it
+under `addCanon` of it (itself without a source dir; else the canonical path of `source_dir/path`
+when that exists) and `rewrite_paths` turns that key back into the path; with a source dir the key
+is not a Java/Kotlin file (no partial-path lookup) -/
 def FixedPath (cfg : Cfg) (fs : FS) (k : Lcov.Bytes) : Prop :=
-  ∀ c, ∃ a, rewriteKey cfg fs (k, c) = .ok (some ⟨a, k, c⟩)
+  (∀ c, ∃ a, rewriteKey cfg fs (addCanon fs cfg.sourceDir k, c) = .ok (some ⟨a, k, c⟩)) ∧
+  (cfg.sourceDir = none ∨ isPartialExt (addCanon fs cfg.sourceDir k) = false)
 
 theorem repOK_nil : RepOK [] := ⟨by simp [NodupKeys, keys], fun _ h => by simp at h⟩
 
@@ -110,18 +126,127 @@ theorem keys_foldl (rs : List Report) (acc : Report) (k : Lcov.Bytes)
       · exact Or.inr ⟨r, by simp, by rw [← e]; exact List.mem_map_of_mem (f := (·.1)) hkc⟩
     · exact Or.inr ⟨x, List.mem_cons_of_mem _ hx, hkx⟩
 
-/-- **One run on files.** No source dir; the files parse to reports within the writer's domain
-whose paths are fixed paths: the run succeeds, and the report it writes is read by the next stage
-as the merge (`add_results`, in the order of the files) of those reports, every record in line
-order. -/
-theorem run_files (cfg : Cfg) (fs : FS) (bs : List Lcov.Bytes) (hS : cfg.sourceDir = none)
+/-! ### `add_results` under an injective canonicalisation is `add_results` as-is, keys renamed -/
+
+/-- a map with its keys canonicalised -/
+def mapK (canon : Key → Key) (m : List (Key × Cov)) : List (Key × Cov) := m.map fun kc => (canon kc.1, kc.2)
+
+theorem get?_mapK (canon : Key → Key) (m : List (Key × Cov)) (k : Key)
+    (hinj : ∀ k' ∈ keys m, canon k' = canon k → k' = k) :
+    get? (mapK canon m) (canon k) = get? m k := by
+  induction m with
+  | nil => rfl
+  | cons a m ih =>
+    obtain ⟨k0, w⟩ := a
+    have ih' := ih fun k' hk' => hinj k' (by simp [keys] at hk' ⊢; exact Or.inr hk')
+    simp only [mapK, List.map_cons, get?_cons] at ih' ⊢
+    by_cases e : k0 = k
+    · subst e; simp
+    · have : canon k0 ≠ canon k := fun ec => e (hinj k0 (by simp [keys]) ec)
+      simp only [e, this, if_false]; exact ih'
+
+theorem set_mapK (canon : Key → Key) (m : List (Key × Cov)) (k : Key) (v : Cov)
+    (hinj : ∀ k' ∈ keys m, canon k' = canon k → k' = k) :
+    AList.set (mapK canon m) (canon k) v = mapK canon (AList.set m k v) := by
+  induction m with
+  | nil => rfl
+  | cons a m ih =>
+    obtain ⟨k0, w⟩ := a
+    have ih' := ih fun k' hk' => hinj k' (by simp [keys] at hk' ⊢; exact Or.inr hk')
+    simp only [mapK, List.map_cons] at ih' ⊢
+    unfold AList.set
+    by_cases e : k0 = k
+    · subst e; simp
+    · have : canon k0 ≠ canon k := fun ec => e (hinj k0 (by simp [keys]) ec)
+      simp only [e, this, if_false, List.map_cons]
+      rw [ih']
+
+theorem addOne_mapK (canon : Key → Key) (m : List (Key × Cov)) (kc : Key × Cov)
+    (hinj : ∀ k' ∈ keys m, canon k' = canon kc.1 → k' = kc.1) :
+    addOne canon (mapK canon m) kc = mapK canon (addOne id m kc) := by
+  unfold addOne
+  simp only [id, get?_mapK canon m kc.1 hinj]
+  exact set_mapK canon m kc.1 _ hinj
+
+theorem addResults_mapK (canon : Key → Key) (P : Key → Prop)
+    (hinj : ∀ a b, P a → P b → canon a = canon b → a = b)
+    (m batch : List (Key × Cov)) (hm : ∀ k ∈ keys m, P k) (hb : ∀ k ∈ keys batch, P k) :
+    addResults canon (mapK canon m) batch = mapK canon (addResults id m batch)
+      ∧ ∀ k ∈ keys (addResults id m batch), P k := by
+  induction batch generalizing m with
+  | nil => exact ⟨rfl, hm⟩
+  | cons kc batch ih =>
+    have hkc : P kc.1 := hb kc.1 (by simp [keys])
+    have step1 : addResults canon (mapK canon m) (kc :: batch)
+        = addResults canon (addOne canon (mapK canon m) kc) batch := rfl
+    have step2 : addResults id m (kc :: batch) = addResults id (addOne id m kc) batch := rfl
+    rw [step1, step2, addOne_mapK canon m kc fun k' hk' e => hinj k' kc.1 (hm k' hk') hkc e]
+    apply ih
+    · intro k hk
+      unfold addOne at hk
+      rw [keys_set] at hk
+      split at hk
+      · exact hm k hk
+      · simp only [id, List.mem_append, List.mem_singleton] at hk
+        rcases hk with h | h
+        · exact hm k h
+        · rw [h]; exact hkc
+    · intro k hk; exact hb k (by simp [keys] at hk ⊢; exact Or.inr hk)
+
+/-- the result map of a run on files whose paths are fixed paths: the merge of the reports the
+files hold (`add_results` as it is), every key canonicalised -/
+theorem foldl_addResults_mapK (canon : Key → Key) (P : Key → Prop)
+    (hinj : ∀ a b, P a → P b → canon a = canon b → a = b)
+    (rs : List Report) (m : List (Key × Cov)) (hm : ∀ k ∈ keys m, P k)
+    (hb : ∀ r ∈ rs, ∀ k ∈ keys r, P k) :
+    rs.foldl (fun acc r => addResults canon acc r) (mapK canon m) = mapK canon (rs.foldl mergeReports m) := by
+  induction rs generalizing m with
+  | nil => rfl
+  | cons r rs ih =>
+    obtain ⟨e, hP⟩ := addResults_mapK canon P hinj m r hm (hb r (by simp))
+    simp only [List.foldl_cons, e]
+    exact ih _ hP fun x hx => hb x (List.mem_cons_of_mem _ hx)
+
+/-- two fixed paths filed under the same key are the same path -/
+theorem fixedPath_inj {cfg : Cfg} {fs : FS} {a b : Lcov.Bytes} (ha : FixedPath cfg fs a)
+    (hb : FixedPath cfg fs b) (e : addCanon fs cfg.sourceDir a = addCanon fs cfg.sourceDir b) : a = b := by
+  obtain ⟨x, hx⟩ := ha.1 {}
+  obtain ⟨y, hy⟩ := hb.1 {}
+  rw [e, hy] at hx
+  cases hx; rfl
+
+/-- no partial-path lookup is needed for a result map all of whose keys are fixed paths -/
+theorem needed_of_fixed {cfg : Cfg} {fs : FS} (ks : List Lcov.Bytes) (h : ∀ k ∈ ks, FixedPath cfg fs k) :
+    needed cfg fs (ks.map (addCanon fs cfg.sourceDir)) = false := by
+  cases hS : cfg.sourceDir with
+  | none => exact needed_of_no_source hS fs _
+  | some s =>
+    apply needed_of_no_java
+    intro k hk
+    simp only [List.mem_map] at hk
+    obtain ⟨k0, hk0, rfl⟩ := hk
+    rcases (h k0 hk0).2 with h1 | h1
+    · rw [hS] at h1; cases h1
+    · rw [hS] at h1; exact h1
+
+/-- **One run on files.** The files parse to reports within the writer's domain whose paths are
+fixed paths (any source dir, prefix dir, globs: whatever makes them so): the run succeeds, and the
+report it writes is read by the next stage as the merge (`add_results`, in the order of the files)
+of those reports, every record in line order. -/
+theorem run_files (cfg : Cfg) (fs : FS) (ord : List (List Lcov.Bytes)) (bs : List Lcov.Bytes)
+    (hA : ∀ s, cfg.sourceDir = some s → UPath.isAbsolute s = true)
     (hr : ∀ b ∈ bs, RepOK (parseInput true b))
     (hk : ∀ b ∈ bs, ∀ k ∈ keys (parseInput true b), FixedPath cfg fs k) :
-    ∃ B, Cli.run cfg true fs bs = .ok B
+    ∃ B, Cli.runJ cfg true fs ord bs = .ok B
       ∧ parseInput true B = sortR ((bs.map (parseInput true)).foldl mergeReports []) := by
+  let canon := addCanon fs cfg.sourceDir
   let M := (bs.map (parseInput true)).foldl mergeReports []
-  have hM : resultMap cfg true fs bs = M := by
-    simp only [resultMap, hS, M, List.foldl_map]
+  have hM : resultMap cfg true fs bs = mapK canon M := by
+    have := foldl_addResults_mapK canon (FixedPath cfg fs) (fun a b ha hb e => fixedPath_inj ha hb e)
+      (bs.map (parseInput true)) [] (by simp [keys]) (by
+        intro r hr'; simp only [List.mem_map] at hr'; obtain ⟨b, hb, rfl⟩ := hr'; exact hk b hb)
+    simp only [resultMap, M]
+    rw [← this, List.foldl_map]
     rfl
   have hMok : RepOK M := foldl_repOK _ [] repOK_nil (by
     intro r hr'; simp only [List.mem_map] at hr'; obtain ⟨b, hb, rfl⟩ := hr'; exact hr b hb)
@@ -130,16 +255,26 @@ theorem run_files (cfg : Cfg) (fs : FS) (bs : List Lcov.Bytes) (hS : cfg.sourceD
     rcases keys_foldl _ [] kc.1 (List.mem_map_of_mem (f := (·.1)) hkc) with h0 | ⟨r, hr', hkr⟩
     · simp [keys] at h0
     · simp only [List.mem_map] at hr'; obtain ⟨b, hb, rfl⟩ := hr'; exact hk b hb _ hkr
-  let g : Lcov.Bytes × Cov → Rewrite.Rec := fun kc => (okPart (rewriteKey cfg fs kc)).getD ⟨[], kc.1, kc.2⟩
-  have hg : ∀ kc ∈ M, rewriteKey cfg fs kc = .ok (some (g kc)) ∧ (g kc).rel = kc.1 ∧ (g kc).cov = kc.2 := by
+  let g : Lcov.Bytes × Cov → Rewrite.Rec := fun kc =>
+    (okPart (rewriteKey cfg fs (canon kc.1, kc.2))).getD ⟨[], kc.1, kc.2⟩
+  have hg : ∀ kc ∈ M, rewriteKey cfg fs (canon kc.1, kc.2) = .ok (some (g kc)) ∧ (g kc).rel = kc.1
+      ∧ (g kc).cov = kc.2 := by
     intro kc hkc
-    obtain ⟨a, ha⟩ := hMk kc hkc kc.2
-    have e : g kc = ⟨a, kc.1, kc.2⟩ := by simp [g, ha, okPart]
+    obtain ⟨a, ha⟩ := (hMk kc hkc).1 kc.2
+    have e : g kc = ⟨a, kc.1, kc.2⟩ := by simp [g, canon, ha, okPart]
     exact ⟨by rw [e]; exact ha, by rw [e], by rw [e]⟩
-  have hrep : report cfg true fs bs = .ok (M.map g) := by
+  have hrep0 : report cfg true fs bs = .ok (M.map g) := by
     unfold report; rw [hM]
-    have := Grcov.Cli.rewritePaths_map_ok cfg fs M id g (by simp [hS]) (fun kc hkc => (hg kc hkc).1)
-    simpa using this
+    exact Grcov.Cli.rewritePaths_map_ok cfg fs M (fun kc => (canon kc.1, kc.2)) g hA
+      (fun kc hkc => (hg kc hkc).1)
+  have hnd : needed cfg fs ((resultMap cfg true fs bs).map (·.1)) = false := by
+    rw [hM]
+    have : (mapK canon M).map (·.1) = (M.map (·.1)).map canon := by simp [mapK, List.map_map, Function.comp]
+    rw [this]
+    exact needed_of_fixed _ fun k hk => by
+      simp only [List.mem_map] at hk; obtain ⟨kc, hkc, rfl⟩ := hk; exact hMk kc hkc
+  have hrep : reportJ cfg true fs ord bs = .ok (M.map g) := by
+    rw [reportJ_eq_report cfg true fs ord bs hnd]; exact hrep0
   have hpr : printable (M.map g) = sortR M := by
     simp only [printable, sortR, List.map_map]
     apply List.map_congr_left
@@ -150,7 +285,7 @@ theorem run_files (cfg : Cfg) (fs : FS) (bs : List Lcov.Bytes) (hS : cfg.sourceD
     rw [hpr]
     intro pc hpc
     exact ⟨writerOK_of_repOK _ hsok pc hpc, (hsok.recs pc hpc).2.1⟩
-  refine ⟨printReport (M.map g), by simp only [Cli.run, hrep], ?_⟩
+  refine ⟨printReport (M.map g), by simp only [Cli.runJ, hrep], ?_⟩
   rw [parseInput_printReport _ hw]
   have : ((M.map g).map fun r => (r.rel, norm r.cov)) = M.map fun kc => (kc.1, norm kc.2) := by
     rw [List.map_map]
@@ -209,11 +344,11 @@ open CliAux
 
 /-- a binary shard tree over input FILES: a leaf contributes its file, an inner node the report of
 one run on the two files below it -/
-def evalCli (cfg : Cfg) (fs : FS) : Tree Lcov.Bytes → Res Lcov.Bytes
+def evalCli (cfg : Cfg) (fs : FS) (ord : List (List Lcov.Bytes)) : Tree Lcov.Bytes → Res Lcov.Bytes
   | .leaf b => .ok b
   | .node l r =>
-    match evalCli cfg fs l, evalCli cfg fs r with
-    | .ok a, .ok b => Cli.run cfg true fs [a, b]
+    match evalCli cfg fs ord l, evalCli cfg fs ord r with
+    | .ok a, .ok b => Cli.runJ cfg true fs ord [a, b]
     | .panic s, _ => .panic s
     | _, .panic s => .panic s
 
@@ -230,10 +365,11 @@ theorem CliAux.leaves_inputsAt (k : Lcov.Bytes) (t : Tree Lcov.Bytes) :
 
 /-- every stage of the sharded evaluation succeeds, and what the next stage reads from it is, file
 by file, observably the merge of the inputs below it -/
-theorem CliAux.evalCli_spec (cfg : Cfg) (fs : FS) (t : Tree Lcov.Bytes) (hS : cfg.sourceDir = none)
+theorem CliAux.evalCli_spec (cfg : Cfg) (fs : FS) (ord : List (List Lcov.Bytes)) (t : Tree Lcov.Bytes)
+    (hA : ∀ s, cfg.sourceDir = some s → UPath.isAbsolute s = true)
     (hr : ∀ b ∈ t.leaves, RepOK (parseInput true b))
     (hk : ∀ b ∈ t.leaves, ∀ k ∈ keys (parseInput true b), FixedPath cfg fs k) :
-    ∃ B, evalCli cfg fs t = .ok B ∧ RepOK (parseInput true B)
+    ∃ B, evalCli cfg fs ord t = .ok B ∧ RepOK (parseInput true B)
       ∧ (∀ k ∈ keys (parseInput true B), FixedPath cfg fs k)
       ∧ ∀ k, ObsEq (covAt (parseInput true B) k) (inputsAt k t).eval := by
   induction t with
@@ -249,7 +385,7 @@ theorem CliAux.evalCli_spec (cfg : Cfg) (fs : FS) (t : Tree Lcov.Bytes) (hS : cf
     have hks : ∀ b ∈ [Bl, Br], ∀ k ∈ keys (parseInput true b), FixedPath cfg fs k := by
       intro b hb; simp only [List.mem_cons, List.not_mem_nil, or_false] at hb
       rcases hb with rfl | rfl <;> assumption
-    obtain ⟨B, eB, pB⟩ := run_files cfg fs [Bl, Br] hS hrs hks
+    obtain ⟨B, eB, pB⟩ := run_files cfg fs ord [Bl, Br] hA hrs hks
     simp only [List.map_cons, List.map_nil, List.foldl_cons, List.foldl_nil] at pB
     have hM1 : RepOK (mergeReports [] (parseInput true Bl)) := repOK_merge _ _ repOK_nil okl
     have hM : RepOK (mergeReports (mergeReports [] (parseInput true Bl)) (parseInput true Br)) :=
@@ -275,17 +411,19 @@ theorem CliAux.evalCli_spec (cfg : Cfg) (fs : FS) (t : Tree Lcov.Bytes) (hS : cf
       exact obsEq_trans (obsEq_merge_empty_left _ (covAt_wf _ okl k)) (ol k)
 
 /-- **Sharding through grcov runs.** For every binary shard tree over lcov input files, under the
-guards of this file's header: every run of the sharded evaluation succeeds, the single run on all
+guards of this file's header – ANY source dir / prefix dir / globs under which the paths of the
+inputs are fixed paths; the options are applied at every stage –: every run of the sharded evaluation succeeds, the single run on all
 input files succeeds, and the two final reports, read back, say observably the same about every
 file – the same line counts, branch vectors, functions and executed flags (an absent file reads as
 the empty record). -/
-theorem C06_cli_sharding_partial (cfg : Cfg) (fs : FS) (t : Tree Lcov.Bytes) (hS : cfg.sourceDir = none)
+theorem C06_cli_sharding_partial (cfg : Cfg) (fs : FS) (ord : List (List Lcov.Bytes)) (t : Tree Lcov.Bytes)
+    (hA : ∀ s, cfg.sourceDir = some s → UPath.isAbsolute s = true)
     (hr : ∀ b ∈ t.leaves, RepOK (parseInput true b))
     (hk : ∀ b ∈ t.leaves, ∀ k ∈ keys (parseInput true b), FixedPath cfg fs k) :
-    ∃ Bs Bd, evalCli cfg fs t = .ok Bs ∧ Cli.run cfg true fs t.leaves = .ok Bd
+    ∃ Bs Bd, evalCli cfg fs ord t = .ok Bs ∧ Cli.runJ cfg true fs ord t.leaves = .ok Bd
       ∧ ∀ k, ObsEq (covAt (parseInput true Bs) k) (covAt (parseInput true Bd) k) := by
-  obtain ⟨Bs, es, _, _, os⟩ := evalCli_spec cfg fs t hS hr hk
-  obtain ⟨Bd, ed, pd⟩ := run_files cfg fs t.leaves hS hr hk
+  obtain ⟨Bs, es, _, _, os⟩ := evalCli_spec cfg fs ord t hA hr hk
+  obtain ⟨Bd, ed, pd⟩ := run_files cfg fs ord t.leaves hA hr hk
   refine ⟨Bs, Bd, es, ed, fun k => ?_⟩
   have hrs : ∀ r ∈ t.leaves.map (parseInput true), RepOK r := by
     intro r hr'; simp only [List.mem_map] at hr'; obtain ⟨b, hb, rfl⟩ := hr'; exact hr b hb
@@ -323,13 +461,66 @@ whose `SF` paths are already normal (clean current directory). -/
 theorem C06_cli_fixed_path_plain (fs : FS) (hcwd : ∀ n ∈ fs.cwd, UPath.RealName n) (np : UPath.NPath)
     (hreal : ∀ n ∈ np.names, UPath.RealName n) (hbs : 92 ∉ UPath.render np) :
     FixedPath {} fs (UPath.render np) := by
-  intro c
+  refine ⟨fun c => ?_, Or.inl rfl⟩
   obtain ⟨a, ha⟩ := resolveKey_plain_normal (cfg := {}) (fs := fs) rfl rfl rfl hcwd hreal hbs
   refine ⟨a, ?_⟩
+  show rewriteKey {} fs (UPath.render np, c) = _
   rw [rewriteKey_some_iff]
   refine ⟨a, _, ha, ?_⟩
   rw [selectRec_some_iff]
   exact ⟨rfl, Or.inl rfl, by simp, rfl, rfl⟩
+
+/-- **With `-s S` (and `-p S`, which `main` sets when `-p` is absent, or no prefix).** `S` clean,
+absolute, backslash-free; no mapping, no glob, no `--filter`: the source-relative path `names` of
+an existing regular file below `S` that is not a Java/Kotlin file is a fixed path – `add_results`
+files it under the canonical `S/names`, `rewrite_paths` reports that key as `names`. -/
+theorem C06_cli_fixed_path_source (cfg : Cfg) (fs : FS) (sn names : List Lcov.Bytes)
+    (hS : cfg.sourceDir = some (UPath.render ⟨true, sn⟩)) (hM : cfg.mapping = none)
+    (hP : cfg.prefixDir = none ∨ cfg.prefixDir = some (UPath.render ⟨true, sn⟩))
+    (hI : cfg.ignore = []) (hK : cfg.keep = []) (hF : cfg.filter = none)
+    (hsn : ∀ n ∈ sn, UPath.RealName n ∧ 92 ∉ n) (hn : ∀ n ∈ names, UPath.RealName n ∧ 92 ∉ n)
+    (hne : names ≠ [])
+    (hres : fs.resolve (UPath.render ⟨true, sn ++ names⟩) = some (sn ++ names, .file))
+    (hJ : isPartialExt (UPath.render ⟨true, sn ++ names⟩) = false) :
+    FixedPath cfg fs (UPath.join names) := by
+  have hsn1 : ∀ n ∈ sn, UPath.RealName n := fun n h => (hsn n h).1
+  have hn1 : ∀ n ∈ names, UPath.RealName n := fun n h => (hn n h).1
+  have hc : addCanon fs cfg.sourceDir (UPath.join names) = UPath.render ⟨true, sn ++ names⟩ := by
+    rw [hS]; exact addCanon_under_source hsn1 hn1 hne hres
+  refine ⟨fun c => ⟨UPath.render ⟨true, sn ++ names⟩, ?_⟩, Or.inr (by rw [hc]; exact hJ)⟩
+  rw [hc, rewriteKey_some_iff]
+  refine ⟨_, _, resolveKey_canonical_under_source hS hM hP hsn hn hne hres, ?_⟩
+  rw [selectRec_some_iff]
+  refine ⟨by simp [hI, Glob.setMatch], Or.inl hK, ?_, by simp [hF, filterOk], rfl⟩
+  intro _; simp [FS.exists, hres]
+
+/-- **Sharding with `-s S [-p S]` at every stage** (second review, item 27). Source dir `S`
+clean, absolute and backslash-free, prefix dir absent or `S`, no mapping / glob / `--filter`,
+`--branch` on. If every input is within the writer's bounds, lists a file once, and names only
+existing regular non-Java files below `S` by their source-relative paths, then every run of the
+sharded evaluation – each made with the SAME `-s`/`-p` – and the single run succeed, and the two
+final reports say observably the same about every file. -/
+theorem C06_cli_sharding_source_partial (cfg : Cfg) (fs : FS) (ord : List (List Lcov.Bytes))
+    (sn : List Lcov.Bytes) (t : Tree Lcov.Bytes)
+    (hS : cfg.sourceDir = some (UPath.render ⟨true, sn⟩)) (hM : cfg.mapping = none)
+    (hP : cfg.prefixDir = none ∨ cfg.prefixDir = some (UPath.render ⟨true, sn⟩))
+    (hI : cfg.ignore = []) (hK : cfg.keep = []) (hF : cfg.filter = none)
+    (hsn : ∀ n ∈ sn, UPath.RealName n ∧ 92 ∉ n)
+    (hr : ∀ b ∈ t.leaves, RepOK (parseInput true b))
+    (hfiles : ∀ b ∈ t.leaves, ∀ k ∈ keys (parseInput true b), ∃ names, names ≠ [] ∧
+      (∀ n ∈ names, UPath.RealName n ∧ 92 ∉ n) ∧ k = UPath.join names ∧
+      fs.resolve (UPath.render ⟨true, sn ++ names⟩) = some (sn ++ names, .file) ∧
+      isPartialExt (UPath.render ⟨true, sn ++ names⟩) = false) :
+    ∃ Bs Bd, evalCli cfg fs ord t = .ok Bs ∧ Cli.runJ cfg true fs ord t.leaves = .ok Bd
+      ∧ ∀ k, ObsEq (covAt (parseInput true Bs) k) (covAt (parseInput true Bd) k) := by
+  apply C06_cli_sharding_partial cfg fs ord t _ hr
+  · intro b hb k hk
+    obtain ⟨names, hne, hn, e, hres, hJ⟩ := hfiles b hb k hk
+    rw [e]
+    exact C06_cli_fixed_path_source cfg fs sn names hS hM hP hI hK hF hsn hn hne hres hJ
+  · intro s hs
+    rw [hS] at hs; cases hs
+    simp [UPath.isAbsolute, UPath.hasRoot_render_true]
 
 namespace CliWit
 def in1 : Lcov.Bytes := [84, 78, 58, 10, 83, 70, 58, 120, 47, 46, 46, 47, 97, 46, 99, 10, 68, 65, 58, 49, 44, 49, 10, 101, 110, 100, 95, 111, 102, 95, 114, 101, 99, 111, 114, 100, 10]
@@ -348,17 +539,30 @@ and `a.c` (known finding C12-respelled-duplicates). The shard `(in1 ∅)` report
 upper run merges that with `in2`'s `a.c`: one section, lines 1 and 2. The single run on all inputs
 keeps two map entries and lists `a.c` TWICE; read back, the first section wins: line 2 is missing. -/
 theorem C06_cli_respelled_paths_witness :
-    get? (covAt (parseInput true (out (evalCli {} fs0 (.node (.node (.leaf in1) (.leaf in0)) (.leaf in2)))))
+    get? (covAt (parseInput true (out (evalCli {} fs0 [] (.node (.node (.leaf in1) (.leaf in0)) (.leaf in2)))))
         [97, 46, 99]).lines 2 = some 1
-    ∧ get? (covAt (parseInput true (out (Cli.run {} true fs0 [in1, in0, in2]))) [97, 46, 99]).lines 2 = none := by
+    ∧ get? (covAt (parseInput true (out (Cli.runJ {} true fs0 [] [in1, in0, in2]))) [97, 46, 99]).lines 2 = none := by
   decide +kernel
 
 /-- non-vacuity: three inputs sharing files (lines out of order, a function hit in one shard only,
 branch vectors of different length), sharded as `((g1 g2) g3)` and run directly: both succeed, and
 the two reports are even byte-equal here -/
 example :
-    out (evalCli {} fs0 (.node (.node (.leaf g1) (.leaf g2)) (.leaf g3))) = out (Cli.run {} true fs0 [g1, g2, g3])
-    ∧ out (Cli.run {} true fs0 [g1, g2, g3]) ≠ [] := by
+    out (evalCli {} fs0 [] (.node (.node (.leaf g1) (.leaf g2)) (.leaf g3))) = out (Cli.runJ {} true fs0 [] [g1, g2, g3])
+    ∧ out (Cli.runJ {} true fs0 [] [g1, g2, g3]) ≠ [] := by
+  decide +kernel
+
+/-- non-vacuity of `C06_cli_sharding_source_partial`: `-s /s` (so `-p /s`), `/s/src/a.c` and
+`/s/lib/b.c` on disk; the same three inputs sharded as `((g1 g2) g3)` with `-s /s -p /s` at every
+stage, and run directly: both succeed and the reports are byte-equal -/
+example :
+    let fsS : FS := { files := [[[115], [115, 114, 99], [97, 46, 99]], [[115], [108, 105, 98], [98, 46, 99]]],
+                      dirs := [[[115]], [[115], [115, 114, 99]], [[115], [108, 105, 98]]], cwd := [[115]] }
+    let cfgS : Cfg := { sourceDir := some [47, 115], prefixDir := some [47, 115] }
+    out (evalCli cfgS fsS [] (.node (.node (.leaf g1) (.leaf g2)) (.leaf g3))) = out (Cli.runJ cfgS true fsS [] [g1, g2, g3])
+    ∧ out (Cli.runJ cfgS true fsS [] [g1, g2, g3]) ≠ []
+    ∧ fsS.resolve (UPath.render ⟨true, [[115]] ++ [[115, 114, 99], [97, 46, 99]]⟩)
+        = some ([[115]] ++ [[115, 114, 99], [97, 46, 99]], .file) := by
   decide +kernel
 
 end Grcov.Props.C06
